@@ -115,6 +115,7 @@ func TestSim(t *testing.T) {
 		if out != nil {
 			out.Write(b)
 			out.WriteByte('\n')
+			out.Flush()
 		} else {
 			fmt.Println(string(b))
 		}
@@ -137,6 +138,9 @@ func TestSim(t *testing.T) {
 			}
 		}
 		tape := NewReplayTape(rf.Seed, rf.Run, rf.Tape)
+		if rf.Tape == nil {
+			tape = NewTape(rf.Seed, rf.Run) // replay by seed
+		}
 		r := RunOne(t, tape, sc, RunOpts{Trace: true, TraceKeep: 400, MaxStep: *fMaxStep, Params: params})
 		emit(toLine(r, true))
 		return
@@ -152,8 +156,11 @@ func TestSim(t *testing.T) {
 			break
 		}
 		n++
+		if *fOut != "" {
+			os.WriteFile(*fOut+".cur", []byte(fmt.Sprint(run)), 0o644)
+		}
 		tape := NewTape(*fSeed, run)
-		r := RunOne(t, tape, sc, RunOpts{Trace: *fTrace || dump != nil, TraceKeep: traceKeep(dump != nil), MaxStep: *fMaxStep, Params: params})
+		r := RunOne(t, tape, sc, RunOpts{Trace: *fTrace || dump != nil, TraceKeep: traceKeep(dump != nil || *fTrace), MaxStep: *fMaxStep, Params: params})
 		bad := len(r.Violations) > 0 || r.Panic != ""
 		if dump != nil {
 			fmt.Fprintf(dump, "== run %d digest %016x steps %d ended %s\n", r.Run, r.Digest, r.Steps, r.Ended)
@@ -162,7 +169,7 @@ func TestSim(t *testing.T) {
 				dump.WriteByte('\n')
 			}
 		}
-		emit(toLine(r, bad))
+		emit(toLine(r, bad || *fTrace))
 		if bad && *fStopOnV {
 			break
 		}
